@@ -1157,6 +1157,11 @@ class FuncAnalysis:
                     out = out.join(self.class_attr_av(owner, v.id, owner.attrs[v.id], _depth + 1))
                 continue
             cv = A.const_value(v)
+            if cv is NotImplemented and isinstance(v, (ast.DictComp, ast.ListComp, ast.SetComp, ast.BinOp, ast.Call, ast.JoinedStr)):
+                # a table computed from literals and module-level constants at class creation
+                fv = A.fold_value(v, owner.module)
+                if fv is not NotImplemented and isinstance(fv, (dict, tuple, frozenset, str, int, float, bytes, bool)):
+                    cv = dict(fv) if isinstance(fv, dict) else fv
             if cv is not NotImplemented:
                 out = out.join(self.literal_av(cv))
             elif isinstance(v, ast.Call) and norm(v.func) in ('re.compile',):
